@@ -149,6 +149,7 @@ int main(void) {
 						if (rc == KSI_OK) rc = KSI_TlvElement_setOctetString(par, (unsigned)atoi(f[1]), os);
 						KSI_OctetString_free(os);
 					} else if (op == 'r') { KSI_TlvElement *gone = NULL; rc = KSI_TlvElement_removeElement(par, (unsigned)atoi(f[1]), &gone); KSI_TlvElement_free(gone); }
+					else if (op == 'd') { rc = KSI_TlvElement_detach(par); }      /* d:<path> the element at the path gets a buffer of its own */
 					else if (op == 'g') { size_t ql = 0; rc = KSI_TlvElement_serialize(par, NULL, 0, &ql, KSI_TLV_OPT_NO_HEADER); }      /* g:<path> the payload length of the element at the path is asked for */
 					else if (op == 'p') {     /* p:- the root is serialized and parsed again */
 						size_t ql = 0, sl = 0; unsigned char *buf; KSI_TlvElement *again = NULL;
